@@ -203,6 +203,55 @@ PROPS = {
              "no assertion fires.",
         note="A violation is attributed to C12 when it happens after at least one move in the plan.",
         design="3/C12"),
+    "C13": dict(
+        engine="schedsim", profile="C13", builds=["dbg", "rwdi"], level="exploration",
+        quick_s=40, thorough_s=600, chunk=60,
+        rule="each run = one plan drawn from a 63-bit seed: 2-4 tasks (real threads) with their operation lists "
+             "over one shared allocator_storage<Policy, SimMutex> (direct / reference / type-erased storage, "
+             "stateless allocator, real memory_pool) and a scheduler seed; the scheduler releases one task at a "
+             "time and picks the next at every scheduling point (mutex lock/unlock, entry and exit of every "
+             "member of the wrapped probe allocator, every upstream call, thread start/end); distinct = distinct "
+             "hash of the recorded schedule (sequence of picks); non-trivial = at least two preemptions (a "
+             "runnable task was descheduled in favour of another)",
+        stubs=["SimMutex (records owner, blocks tasks in the scheduler)", "probe allocator with occupancy "
+               "counter and yield points inside every member", "SimHeap upstream (for the real pool variant)"],
+        technique="deterministic simulation of thread schedules: real threads parked and released one at a time "
+                  "by a seeded scheduler at intercepted synchronisation points; occupancy / lock-held oracle",
+        text="2-4 threads share one thread_safe_allocator (all storage policies, Mutex = simulator mutex) and "
+             "call every forwarding member and the lock() proxy; tasks are descheduled inside the wrapped "
+             "allocator while others try to enter. Any entry while another task is inside, or without the mutex "
+             "held, any unlock by a non-owner, deadlock or livelock is a violation; a stateless allocator must "
+             "take no lock; a real memory_pool keeps the C01 shadow model under contention.",
+        note="Serialising scheduler: no instruction-level preemption; atomicity of the stateless allocators' "
+             "global counters under true parallelism is not decided here.",
+        design="3/C13"),
+    "C14": dict(
+        engine="schedsim", profile="C14", builds=["rwdi", "dbg", "tm1"], level="exploration",
+        quick_s=45, thorough_s=600, chunk=40,
+        rule="each run = one forked child process executing one plan drawn from a 63-bit seed: the real main "
+             "thread plus 1-3 worker threads (started and joined at drawn points) run nested temporary_allocator "
+             "scopes, allocations, shrink_to_fit, temporary_stack_initializer creation/destruction and "
+             "get_temporary_stack(), optionally with the k-th malloc failing; a seeded scheduler decides who runs "
+             "at every hook point of the lock-free stack list (guarded hook H1), at upstream calls and at thread "
+             "start/exit (thread-local destructors run under scheduler control); the child then leaves through "
+             "exit(), i.e. real thread-local and static destruction; distinct = distinct hash of schedule and "
+             "returned addresses; non-trivial = at least one preemption",
+        stubs=["wrapped malloc/free (SimHeap) with failure injection", "recording leak handler", "exit-time "
+               "accounting object (init_priority 101, destroyed after every library static)"],
+        technique="deterministic simulation of thread schedules with fault injection: seeded scheduler over real "
+                  "threads at guarded hook points inside the lock-free temporary stack list, fork-per-run, real "
+                  "process exit; exclusivity / scope-marker / reuse / exit-balance oracles",
+        text="Per run a fresh process: threads start, use temporary allocators in nested scopes, create and "
+             "destroy initializers and exit under seeded interleavings of every shared-memory step of the stack "
+             "list. Oracles: no two live threads are ever handed the same stack; the stack marker after a "
+             "temporary_allocator's destruction equals the one before its construction and outer allocations "
+             "keep their contents; a thread is not given a brand-new stack while the stack of a finished user "
+             "was free during the whole call; after exit() nothing obtained through malloc is still allocated "
+             "and the leak handler stayed silent; no deadlock/livelock. Modes 2 (list, nifty counter) and 1 "
+             "(explicit initializer).",
+        note="Scheduling points are the hook sites (H1), upstream calls and thread start/end: interleavings "
+             "inside a single atomic operation are not explored.",
+        design="3/C14"),
     "C15": dict(
         engine="histsim", profile="C15", builds=["dbg", "rwdi", "rel"], level="exploration",
         quick_s=40, thorough_s=600,
@@ -248,9 +297,13 @@ NOT_APPLICABLE = {
            "different technique (DESIGN.md section 3, C19)",
 }
 
-HOOK_COMMITS = []
+HOOK_COMMITS = ["91245af verif: guarded scheduling points in the temporary stack list (FOONATHAN_MEMORY_VERIF)"]
 
 ENGINE_TEXT = {
+    "schedsim": "deterministic thread-schedule simulator: real OS threads parked and released one at a time by a "
+                "seeded scheduler at intercepted synchronisation points (mutex, allocator entry/exit, upstream "
+                "calls, library hook points, thread start/end incl. thread-local destruction); fork-per-run for "
+                "the process-exit part",
     "compsim": "single-task deterministic simulator for adapter compositions, smart pointer helpers, joint "
                "allocations and STL containers over logging leaf allocators and instrumented element types",
     "histsim": "single-task deterministic simulator: seeded operation/fault plans executed against real library "
